@@ -159,6 +159,12 @@ GUARDS = {
 }
 
 
+def active_guards():
+    """Guards of defects that are still open (a fixed defect has its entry set to False: its
+    former territory is ordinary ground, explored and judged like everything else)."""
+    return {g for g, on in GUARDS.items() if on}
+
+
 class MTree:
     def __init__(self, flavour, unguarded=()):
         self.flavour = flavour
@@ -400,9 +406,15 @@ class MTree:
         """Name of the reported defect (GUARDS entry) that `op` runs into from this state,
         or None: what the same model with every guard on would refuse to predict."""
         m = self.copy()
-        m.guards = set(GUARDS)
+        m.guards = active_guards()
         r, g = m.classify_ex(op)
         return g if r == "skip" else None
+
+    def territory_state(self):
+        """The reported defect whose (guarded) STATE the model is in right now, or None."""
+        m = self.copy()
+        m.guards = active_guards()
+        return m.guarded_state()
 
     def dir_replaced(self):
         """bzr: some versioned directory with versioned children is a file / symlink now."""
@@ -1240,7 +1252,9 @@ def fail(sim, prop, tag, rest, detail, territory=None):
     against known_findings.json ([prop, "known-defect", guard]); everything else keeps the
     oracle's own signature."""
     prop = sim.notes.get("prop", prop)
-    t = territory or sim.notes.get("territory")
+    # most specific first: what the failing comparison itself worked out, then the guarded
+    # state the model is in right now, then the first territory the run entered
+    t = territory or sim.notes.get("territory_state") or sim.notes.get("territory")
     if t:
         sim.fail(tag, [prop, "known-defect", t], "[%s, in the territory of %s] %s" % (tag, t, detail))
     sim.fail(tag, [prop, tag] + list(rest), detail)
